@@ -88,7 +88,7 @@ def with_clone(fn):
     @st.composite
     def wrapped(draw, shard, tier):
         case = draw(fn(shard, tier))
-        case["clone"] = draw(gd.clone_modes(none_share=4))
+        case["clone"] = draw(gd.clone_modes(none_share=4, arith=True))
         case["clone_orbit"] = draw(st.booleans())
         return case
 
